@@ -784,11 +784,12 @@ inline const auto& parser_h()
     static const auto* p = []
     {
         constexpr nterm<int> num("num"), tag("tag");
+        constexpr nterm<long> wide("wide");      // a left-side type that differs from its functor's return type (int), both being value types of the grammar
         constexpr nterm<IV> ll("ll"), rl("rl"), wl("wl"), vl("vl");
         constexpr nterm<Top> top("top");
         constexpr regex_term<h_num_pattern> number("number");
         return new parser(
-            top, terms(number, ',', ';', ':', '(', ')', '[', ']', '!', '#'), nterms(top, ll, rl, wl, vl, num, tag),
+            top, terms(number, ',', ';', ':', '(', ')', '[', ']', '!', '#'), nterms(top, ll, rl, wl, vl, num, tag, wide),
             rules(
                 top(ll, ';', rl, ';', wl, ';', vl, tag) >= [](IV&& a, skip, IV&& b, skip, IV&& c, skip, IV&& d, int t) { return Top{std::move(a), std::move(b), std::move(c), std::move(d), t}; },
                 num(number) >= [](std::string_view sv) { int v = 0; for (char c : sv) v = (v * 10 + (c - '0')) % 100000; return v; },
@@ -803,7 +804,8 @@ inline const auto& parser_h()
                 vl('!') >= create<IV>{},
                 vl(vl, ':', '(', num) >= emplace_back<1, 4>{},               // container first, two between
                 tag() >= val(7),
-                tag('#', num) >= _e2
+                wide(num) >= [](int v) { return v; },                        // returns int, the node is a long
+                tag('#', wide) >= [](skip, long w) { return int(w % 100000); }
             ),
             use_generated_lexer{}, h_limits{});
     }();
@@ -1041,6 +1043,8 @@ static SpellTable make_spelling(Choice& ch0, uint64_t salt, const std::vector<in
         if (isrx(t.sp[j].kind) && t.sp[j].text[0] == t.sp[i].text[0]) clash = true;
         if (clash) t.sp[i] = menu[i][0];
     }
+    // C18's programs: display names of realistic length that share a long prefix (all terminals are custom terms there, named by these strings)
+    if (getenv("EMIT_LONG_NAMES")) for (size_t i = 0; i < 6; ++i) t.sp[i].name = "string_literal_" + t.sp[i].name;
     for (int i = 0; i < 6; ++i) t.decl_order.push_back(i);
     for (int i = 5; i > 0; --i) std::swap(t.decl_order[size_t(i)], t.decl_order[ch.below(uint32_t(i + 1))]);
     return t;
